@@ -5,7 +5,14 @@ Four case kinds, all run against the real `pydrobert.torch` code in-process:
 * ``mvn``     MeanVarianceNormalization: one pool of integer-valued tensors, one *history*
               (an ordering of the tensors cut into contiguous chunks, each chunk concatenated and
               given to one ``accumulate`` call), ``store(bessel)``, ``forward`` with the stored
-              statistics, with the input's own statistics, and with only one of the two stored.
+              statistics, with the input's own statistics, and with only one of the two stored; a
+              *forward grid*: a probe input that is NOT the pool (a sub-pool) normalised with every
+              combination of supplied / omitted statistics (none / mean only / std only / both; the
+              supplied ones differ from the probe's own) through the functional, the constructor and
+              a module whose buffers are assigned one at a time.
+* ``mvnseq``  the module as a state machine: a random sequence of ``accumulate`` /
+              ``store(delete_stats, bessel)`` calls (failing stores included), buffers and statistics
+              observed after every call.
 * ``cli``     ``compute-mvn-stats-for-torch-feat-data-dir`` on a temporary directory
               (``--num-workers 0``), optionally with ``--id2gid`` groups.
 * ``deltas``  ``feat_deltas`` / ``FeatureDeltas`` for one (shape, dim, time_dim, concatenate, order,
@@ -78,6 +85,9 @@ def relayout(t, layout):
 
 LAYOUTS = ("contig", "contig", "transposed", "strided")
 EPS_CHOICES = (None, None, None, "0", "1/4", "2", "16")
+EPS_ACTIVE = ("1/4", "2", "16")
+COMBOS = ("none", "mean", "std", "both")
+GIVEN_STD = ("1/4", "1/2", "1", "3/2", "2", "3", "5")
 
 
 def coeff_values(tensors, dim):
@@ -152,16 +162,26 @@ class C18(PropertyCheck):
             "(buffers must survive, later accumulate + store pool everything), store(delete_stats=True) then "
             "store (must raise) then accumulate (fresh start), forward with stored / own / half-stored "
             "statistics through module and functional, arguments equal to documented defaults left out, inputs "
-            "must not be modified; cli: the directory command with --num-workers 0, with and without "
-            "--id2gid (1-3 groups, ids without a file, groups without a file, a file missing from the map -> "
-            "exit 1, whitespace styles), --bessel, default --dim/prefix/suffix left out, files of different "
+            "must not be modified; a forward grid per case: a probe that is a random non-empty sub-pool (own "
+            "statistics differ from the pooled ones) normalised with every combination of supplied / omitted "
+            "statistics {none, mean only, std only, both}, once with free vectors forced to differ from the "
+            "probe's own statistics in every coefficient (float32/float64, contiguous / strided) and once with "
+            "the statistics stored from the whole pool, each through the functional (positional, keywords), the "
+            "constructor, buffers assigned one at a time and the storing module with one buffer set to None; "
+            "the accumulating module optionally starts with preset statistics that store must overwrite; "
+            "mvnseq: random sequences of 1-10 accumulate / store(delete_stats, bessel) calls on one module incl. "
+            "stores that must raise (nothing pending, zero / one frame) followed by further calls, buffers and "
+            "statistics observed after every call; cli: the directory command with --num-workers 0, with and "
+            "without --id2gid (1-3 groups, ids without a file, groups without a file, a file missing from the "
+            "map -> exit 1, a repeated id / a line of three tokens / of one token -> exit 1, whitespace "
+            "styles), --bessel, default --dim/prefix/suffix left out, files of different "
             "rank, stray files, an empty directory; deltas: orders 0-3 x widths 1-3 x 4 pad modes, every legal "
             "(dim, time_dim, concatenate) on rank 2-4 inputs incl. negative aliases, widths 4-10 / orders 4-5, "
             "fractional pad value, non-contiguous inputs, an axis of extent 0, the all-defaults call, "
             "functional and module (also on the malformed stream); returns: gamma in {0, +-1/2, 1/4, +-1, 2} "
             "(also as python int) x T <= 8 x both layouts exact, non-contiguous rewards, empty batch, rewards "
             "that are not 2-D (RuntimeError), real gammas within tolerance, long horizons oracle-only. "
-            "non-trivial: >= 2 chunks / order >= 1 / gamma != 0 and T >= 2; distinct by case.")
+            "non-trivial: >= 2 chunks / >= 3 calls with a store / order >= 1 / gamma != 0 and T >= 2; distinct by case.")
     assumptions = [
         "float rounding is not modelled: accumulators, width-1 deltas and dyadic-gamma returns are compared "
         "exactly on integer-valued inputs; means, variances, normalised outputs, width>1 deltas and "
@@ -183,6 +203,7 @@ class C18(PropertyCheck):
         big = tier != "quick"
         yield from self.gen_return(rng, big)
         yield from self.gen_mvn(rng, big)
+        yield from self.gen_mvnseq(rng, big)
         yield from self.gen_cli(rng, big)
         yield from self.gen_deltas(rng, big)
 
@@ -214,17 +235,58 @@ class C18(PropertyCheck):
     def decorate_mvn(self, rng, case):
         """Options beyond the history itself: eps (default / 0 / above the deviations), the memory layout
         of every chunk and of the pooled tensor, accumulate calls of different rank over the same frames,
-        and a store(delete_stats=False) in the middle of the history (accumulate after store)."""
+        a store(delete_stats=False) in the middle of the history (accumulate after store), and the forward
+        grid (`fwd`): which sub-pool is normalised and which statistics are supplied."""
         n = len(case["history"])
         eps = rng.choice(EPS_CHOICES)
+        rank = len(case["tensors"][0]["shape"])
+        X = case["tensors"][0]["shape"][case["dim"] % rank]
         if eps == "0":
             vals = coeff_values(case["tensors"], case["dim"])
-            X = case["tensors"][0]["shape"][case["dim"] % len(case["tensors"][0]["shape"])]
             if len(vals) < X or any(len(set(v)) < 2 for v in vals.values()):
                 eps = None          # 0 / max(0, 0) is not specified: eps = 0 only without constant coefficients
-        return dict(case, eps=eps, layouts=[rng.choice(LAYOUTS) for _ in range(n + 1)],
+        case = dict(case, eps=eps, layouts=[rng.choice(LAYOUTS) for _ in range(n + 1)],
                     lift=[rng.random() < 0.25 for _ in range(n)],
                     store_after=rng.randrange(1, n) if n >= 2 and rng.random() < 0.5 else None)
+        return self.decorate_fwd(rng, case, X)
+
+    def decorate_fwd(self, rng, case, X):
+        """The forward grid.  The probe is a non-empty sub-pool (so its own statistics differ from the
+        pooled ones: one utterance normalised with corpus statistics); the supplied mean / std are free
+        vectors forced to differ from the probe's own statistics in every coefficient, given in either
+        float dtype and memory layout.  An omitted deviation is the probe's own: where that is 0 (a
+        constant coefficient, a single frame) the quotient is only representable with eps well above
+        the default, so eps is then drawn from the clamp-active values."""
+        nt = len(case["tensors"])
+        for attempt in range(4):
+            k = rng.randrange(1, nt + 1)
+            probe = sorted(rng.sample(range(nt), k)) if attempt < 3 else list(range(nt))
+            vals = coeff_values([case["tensors"][i] for i in probe], case["dim"])
+            if len(vals) == X and all(len(v) >= 1 for v in vals.values()):
+                break
+        else:
+            return dict(case, fwd=None)             # no frame at all anywhere
+        if len(vals) < X:
+            return dict(case, fwd=None)
+        if any(len(set(v)) < 2 for v in vals.values()) and case.get("eps") in (None, "0"):
+            case = dict(case, eps=rng.choice(EPS_ACTIVE))
+        mean, std = [], []
+        for i in range(X):
+            v = [Fraction(a) for a in vals[i]]
+            own_mean = sum(v) / len(v)
+            own_var = sum((a - own_mean) ** 2 for a in v) / len(v)
+            m = Fraction(rng.randrange(-16, 17), 2)
+            if m == own_mean:
+                m += rng.choice([-3, 1, Fraction(5, 2)])
+            sd = Fraction(rng.choice(GIVEN_STD))
+            if sd * sd == own_var:
+                sd *= 2
+            mean.append(frac_str(m))
+            std.append(frac_str(sd))
+        return dict(case, fwd={"probe": probe, "mean": mean, "std": std,
+                               "stat_dtype": rng.choice(["float32", "float64"]),
+                               "stat_layout": rng.choice(["contig", "contig", "strided"]),
+                               "preset": rng.choice(["none", "none", "mean", "std", "both"])})
 
     def gen_mvn(self, rng, big):
         for c in self.gen_mvn_plain(rng, big):
@@ -278,10 +340,36 @@ class C18(PropertyCheck):
                    "tensors": [{"shape": [0, 2], "data": []}, {"shape": [2, 2], "data": [1, 2, 5, 4]}],
                    "history": [[0], [1]]}
 
+    # ---------------------------------------------------------------- mvnseq
+    def gen_mvnseq(self, rng, big):
+        """The module as a state machine: any sequence of accumulate / store(delete_stats, bessel) calls,
+        stores that must raise (nothing accumulated, buffers just deleted, zero or one frame) included;
+        a caller that catches the RuntimeError carries on with the same object."""
+        for k in range(260 if big else 70):
+            n = rng.randrange(1, 5)
+            pool = self.rand_pool(rng, n)
+            nops = rng.randrange(1, 10)
+            ops = []
+            for j in range(nops):
+                if rng.random() < (0.3 if j == 0 else 0.55):
+                    ops.append(["store", rng.random() < 0.5, rng.random() < 0.4])
+                else:
+                    ops.append(["acc", rng.randrange(n)])
+            if k % 3 == 0:
+                ops.append(["store", rng.random() < 0.5, rng.random() < 0.4])
+            X = pool["tensors"][0]["shape"][pool["dim"] % len(pool["tensors"][0]["shape"])]
+            preset = rng.choice(["none", "none", "mean", "std", "both"])
+            yield {"kind": "mvnseq", "dtype": pool["dtype"], "dim": pool["dim"], "tensors": pool["tensors"],
+                   "ops": ops, "preset": preset, "layouts": [rng.choice(LAYOUTS) for _ in ops],
+                   "preset_mean": [frac_str(Fraction(rng.randrange(-16, 17), 2)) for _ in range(X)],
+                   "preset_std": [rng.choice(GIVEN_STD) for _ in range(X)]}
+
     # ---------------------------------------------------------------- cli
     def gen_cli(self, rng, big):
-        for k in range(70 if big else 26):
+        for k in range(77 if big else 33):
             nfiles = rng.randrange(1, 6) if k > 1 else 0       # two runs on a directory without features
+            # every 11 cases: one of each kind of map the parser must reject
+            defect = {3: "dup", 5: "three", 7: "one"}.get(k % 11)
             rank = rng.choice([2, 2, 3])
             dim = rng.choice([-1, -1, 0, 1, -2]) if rank >= 2 else -1
             d = dim % rank
@@ -296,14 +384,16 @@ class C18(PropertyCheck):
                               "data": [rng.randrange(-8, 9) for _ in range(prod(shape))]})
             groups = absent = None
             unlisted = False
-            if rng.random() < 0.5:
+            if rng.random() < 0.5 or defect:
                 gids = rng.choice([["g1", "g2"], ["g1", "g2", "g3"], ["only"]])
                 groups = {f["id"]: rng.choice(gids) for f in files}
                 # ids listed in the map without a file in the directory (their group may stay empty)
                 absent = {f"zz{j}": rng.choice(gids + ["ghost"]) for j in range(rng.choice([0, 0, 1, 2]))}
                 unlisted = nfiles >= 1 and rng.random() < 0.12  # a file the map does not mention: error
+            # a map the parser must reject (exit status 1, nothing written): an id listed twice, a line
+            # that does not hold exactly two tokens
             yield {"kind": "cli", "dim": dim, "bessel": rng.random() < 0.5, "files": files, "groups": groups,
-                   "absent": absent, "unlisted": unlisted, "map_style": rng.randrange(4),
+                   "absent": absent, "unlisted": unlisted, "map_style": rng.randrange(4), "map_defect": defect,
                    "prefix": rng.choice(["", "", "p-"]), "suffix": rng.choice([".pt", ".pt", ".feat"]),
                    "dtype": rng.choice(["float32", "float64"])}
 
@@ -501,6 +591,88 @@ class C18(PropertyCheck):
             return {"m1": [], "m2": []}
         return {"m1": fl(yc.mean(1).tolist()), "m2": fl((yc * yc).mean(1).tolist())}
 
+    def probe_of(self, case, ts):
+        """The tensor the forward grid normalises: the tensors `fwd.probe` of the pool, put together like
+        the pooled tensor (stacked for rank-1 pools), in the memory layout drawn for the pooled tensor."""
+        import torch
+        fwd = case.get("fwd")
+        if not fwd:
+            return None, None
+        sel = [ts[i] for i in fwd["probe"]]
+        if case["cat_axis"] is None:
+            p, d = torch.stack(sel, 0), -1
+        else:
+            p, d = torch.cat(sel, case["cat_axis"]), case["dim"]
+        lay = case.get("layouts")
+        return (relayout(p, lay[0]) if lay else p), d
+
+    def given_stats(self, case):
+        import torch
+        fwd = case["fwd"]
+        dt = torch.float32 if fwd.get("stat_dtype") == "float32" else torch.float64
+        out = []
+        for k in ("mean", "std"):
+            t = torch.tensor([float(Fraction(v)) for v in fwd[k]], dtype=dt)
+            out.append(relayout(t, fwd.get("stat_layout")))
+        return out
+
+    def fwd_grid(self, x, dim, mean, std, eps, holder=None):
+        """`mean_var_norm` for every combination of supplied / omitted statistics, each through every
+        entry route: the functional (positional and by keyword with defaults left out), a module built
+        with the statistics, a module built without any whose buffers are then assigned one at a time, and
+        (`holder`) a module that accumulated and stored, with the buffer of the omitted statistic set to
+        None.  All routes must return the same tensor; the positional functional result is reported."""
+        import torch
+        from pydrobert.torch.functional import mean_var_norm
+        ekw = {} if eps is None else {"eps": float(Fraction(eps))}
+        obs, differ = {}, []
+        keep = x.clone()
+        for name, (m, s) in (("none", (None, None)), ("mean", (mean, None)), ("std", (None, std)),
+                             ("both", (mean, std))):
+            y = mean_var_norm(x, dim, m, s, **ekw)
+            kw = dict(ekw)
+            if dim != -1:
+                kw["dim"] = dim
+            if m is not None:
+                kw["mean"] = m
+            if s is not None:
+                kw["std"] = s
+            routes = {"functional_kw": lambda: mean_var_norm(x, **kw),
+                      "ctor": lambda: self.new_mvn(dim, m, s, eps)(x)}
+
+            def assigned():
+                mod = self.new_mvn(dim, eps=eps)
+                if s is not None:
+                    mod.std = s
+                if m is not None:
+                    mod.mean = m
+                return mod(x)
+            routes["assigned"] = assigned
+            if holder is not None:
+                def held():
+                    old = holder.mean, holder.std
+                    try:
+                        holder.mean, holder.std = m, s
+                        return holder(x)
+                    finally:
+                        holder.mean, holder.std = old
+                routes["stored_then_unset"] = held
+            for rname, f in routes.items():
+                try:
+                    yr = f()
+                    same = yr.shape == y.shape and yr.dtype == y.dtype and \
+                        bool(torch.equal(torch.nan_to_num(yr, nan=12345.0), torch.nan_to_num(y, nan=12345.0)))
+                except Exception as e:          # a route that refuses what the functional accepts
+                    same = False
+                    rname += f" raised {type(e).__name__}"
+                if not same:
+                    differ.append(f"{name}:{rname}")
+            obs[name] = {"y": fl(y.flatten().tolist()), "stats": self.col_stats(y, dim),
+                         "shape_ok": y.shape == x.shape and y.dtype == x.dtype}
+        obs["routes_differ"] = differ
+        obs["input_kept"] = bool(torch.equal(keep, x))
+        return obs
+
     def impl_mvn(self, case):
         import torch
         from pydrobert.torch.functional import mean_var_norm
@@ -510,8 +682,17 @@ class C18(PropertyCheck):
         ekw = {} if eps is None else {"eps": float(Fraction(eps))}
         mid = self.mid_of(case)
         mutated = []
-        mvn = self.new_mvn(case["dim"], eps=eps)
         obs = {}
+        probe, prdim = self.probe_of(case, ts)
+        pm = ps = None
+        if probe is not None:
+            gmean, gstd = self.given_stats(case)
+            obs["grid_given"] = self.fwd_grid(probe, prdim, gmean, gstd, eps)
+            # the accumulating module may start out with statistics of its own: store must overwrite them
+            preset = case["fwd"].get("preset", "none")
+            pm = gmean.clone() if preset in ("mean", "both") else None
+            ps = gstd.clone() if preset in ("std", "both") else None
+        mvn = self.new_mvn(case["dim"], pm, ps, eps)
         for j, c in enumerate(chunks):
             if mid is not None and j == mid:
                 # store in the middle of the history, keeping the buffers: they must stay what they were
@@ -563,6 +744,11 @@ class C18(PropertyCheck):
         }
         if not torch.equal(keep, pooled):
             mutated.append("forward")
+        if probe is not None:
+            # the statistics just stored (those of the whole pool) applied to the probe, every combination
+            obs["grid_stored"] = self.fwd_grid(probe, prdim, mean, std, eps,
+                                               holder=mvn if prdim == case["dim"] else None)
+            obs["store"]["holder_restored"] = bool(torch.equal(mvn.mean, mean) and torch.equal(mvn.std, std))
         # store(delete_stats=True) must forget the buffers and write the same statistics
         mvn.store(delete_stats=True, bessel=case["bessel"])
         obs["store"]["deleted"] = mvn.count is None and mvn.sum is None and mvn.sumsq is None
@@ -591,12 +777,157 @@ class C18(PropertyCheck):
         return {"op": "c18.mvn", "case": {
             "dim": case["dim"], "pooled_dim": pdim, "bessel": case["bessel"],
             "eps": frac_str(config.TINY) if eps is None else eps, "mid": self.mid_of(case),
-            "chunks": [tcase(c) for c in chunks], "pooled": tcase(pooled)}}
+            "chunks": [tcase(c) for c in chunks], "pooled": tcase(pooled), "grids": self.grids_req(case, ts)}}
+
+    def grids_req(self, case, ts):
+        probe, prdim = self.probe_of(case, ts)
+        if probe is None:
+            return []
+        x = tcase(probe)
+        return [{"x": x, "dim": prdim, "mean": case["fwd"]["mean"], "std": case["fwd"]["std"]},
+                {"x": x, "dim": prdim, "use_stored": True}]
+
+    # ---------------------------------------------------------------- mvnseq
+    def impl_mvnseq(self, case):
+        import torch
+        ts = [mk(t, case["dtype"]) for t in case["tensors"]]
+        pm = ps = None
+        if case.get("preset") in ("mean", "both"):
+            pm = torch.tensor([float(Fraction(v)) for v in case["preset_mean"]], dtype=torch.float64)
+        if case.get("preset") in ("std", "both"):
+            ps = torch.tensor([float(Fraction(v)) for v in case["preset_std"]], dtype=torch.float64)
+        mvn = self.new_mvn(case["dim"], pm, ps)
+        lays = case.get("layouts") or []
+        steps = []
+        for j, op in enumerate(case["ops"]):
+            raised = False
+            try:
+                if op[0] == "acc":
+                    x = relayout(ts[op[1]], lays[j] if j < len(lays) else None)
+                    keep = x.clone()
+                    mvn.accumulate(x)
+                    if not torch.equal(keep, x):
+                        raised = "input modified"
+                else:
+                    # arguments equal to the documented defaults (delete_stats=True, bessel=False) left out
+                    kw = {}
+                    if not op[1]:
+                        kw["delete_stats"] = False
+                    if op[2]:
+                        kw["bessel"] = True
+                    mvn.store(**kw)
+            except RuntimeError:
+                raised = True
+            bufs = (mvn.count, mvn.sum, mvn.sumsq)
+            steps.append({
+                "raised": raised,
+                "acc": self.acc_obs(mvn) if all(b is not None for b in bufs) else None,
+                "buffers_consistent": all(b is None for b in bufs) or all(b is not None for b in bufs),
+                "mean": None if mvn.mean is None else fl(mvn.mean.tolist()),
+                "std": None if mvn.std is None else fl(mvn.std.tolist())})
+        return {"steps": steps}
+
+    def req_mvnseq(self, case):
+        return {"op": "c18.machine", "case": {
+            "dim": case["dim"], "tensors": case["tensors"],
+            "ops": [{"acc": op[1]} if op[0] == "acc" else {"store": [bool(op[1]), bool(op[2])]}
+                    for op in case["ops"]]}}
+
+    def preset_obs(self, case):
+        pm = [frac_str(F(v)) for v in case["preset_mean"]] if case.get("preset") in ("mean", "both") else None
+        ps = [frac_str(F(v)) for v in case["preset_std"]] if case.get("preset") in ("std", "both") else None
+        return pm, ps
+
+    def cmp_mvnseq(self, case, impl, model):
+        out = []
+        pm, ps = self.preset_obs(case)
+        for j, (a, b) in enumerate(zip(impl["steps"], model["steps"])):
+            op = case["ops"][j]
+            if a["raised"] is not b["raised"]:
+                out.append(f"call {j} {op}: impl raised={a['raised']} model raised={b['raised']}")
+            if (a["acc"] is None) != (b["acc"] is None) or (a["acc"] is not None and not self.acc_eq(a["acc"], b["acc"])):
+                out.append(f"call {j} {op}: buffers impl={a['acc']} model={b['acc']}")
+            if b["stats"] is None:
+                if (a["mean"], a["std"]) != (pm, ps):
+                    out.append(f"call {j} {op}: statistics changed although no store has succeeded")
+            elif a["mean"] is None or a["std"] is None:
+                out.append(f"call {j} {op}: no statistics although a store has succeeded")
+            else:
+                bad = first_bad(a["mean"], b["stats"]["mean"], 1e-12, 1e-12) or \
+                    first_bad([frac_str(F(v) * F(v)) for v in a["std"]], b["stats"]["var"], 1e-10, 1e-10)
+                if bad:
+                    out.append(f"call {j} {op}: statistics differ: {bad}")
+        return out[:4]
+
+    def pred_mvnseq(self, case, impl, model):
+        """The bookkeeping the docstrings promise, call by call: accumulate only ever adds to the buffers;
+        store raises exactly when fewer than 1 (Bessel: 2) frames are pending and then changes nothing;
+        otherwise it writes the pooled statistics of everything pending (Lean: from coeffEntries of the
+        pending tensors), overwriting what was there, and drops the buffers iff delete_stats."""
+        fails = []
+        prev = {"acc": None, "mean": None, "std": None}
+        prev["mean"], prev["std"] = self.preset_obs(case)
+        for j, (a, b) in enumerate(zip(impl["steps"], model["steps"])):
+            op = case["ops"][j]
+            what = f"call {j} ({'accumulate' if op[0] == 'acc' else f'store(delete_stats={op[1]}, bessel={op[2]})'})"
+            if not a["buffers_consistent"]:
+                fails.append((f"{what}: only some of count / sum / sumsq exist", None))
+            if a["raised"] == "input modified":
+                fails.append((f"{what}: the caller's tensor was modified", None))
+            if op[0] == "acc":
+                if a["raised"] is True:
+                    fails.append((f"{what} raised", None))
+                if (a["mean"], a["std"]) != (prev["mean"], prev["std"]):
+                    fails.append((f"{what} changed the stored statistics", None))
+                if a["acc"] is None or not self.acc_eq(a["acc"], b["acc"]):
+                    fails.append((f"{what}: buffers are not the totals of the frames pending: {a['acc']}", None))
+            elif b["raised"]:
+                if a["raised"] is not True:
+                    fails.append((f"{what} succeeded with too few frames pending", None))
+                if (a["acc"], a["mean"], a["std"]) != (prev["acc"], prev["mean"], prev["std"]):
+                    fails.append((f"{what} raised but changed the module", None))
+            else:
+                if a["raised"] is True:
+                    fails.append((f"{what} raised although enough frames are pending", None))
+                else:
+                    sp = b["stored_now"]
+                    bad = (a["mean"] is None or a["std"] is None) and "statistics missing"
+                    bad = bad or first_bad(a["mean"], sp["mean"], 1e-12, 1e-12) or \
+                        first_bad([frac_str(F(v) * F(v)) for v in a["std"]], sp["var"], 1e-10, 1e-10)
+                    if bad:
+                        fails.append((f"{what}: stored statistics are not the pooled statistics of the frames "
+                                      f"accumulated since the last deleting store: {bad}", None))
+                    if op[1] and a["acc"] is not None:
+                        fails.append((f"{what} kept the buffers", None))
+                    if not op[1] and a["acc"] != prev["acc"]:
+                        fails.append((f"{what} changed or dropped the buffers", None))
+            prev = {"acc": a["acc"], "mean": a["mean"], "std": a["std"]}
+            if fails:
+                break
+        return fails
 
     # ---------------------------------------------------------------- cli
     def cli_expect_rc1(self, case):
-        """Documented error exits: no feature file at all (without groups), or a file the map does not list."""
-        return bool(case.get("unlisted")) or (not case["files"] and case["groups"] is None)
+        """Documented error exits: no feature file at all (without groups), a file the map does not list, a
+        map with a repeated id or with a line that is not a pair."""
+        return bool(case.get("unlisted")) or (not case["files"] and case["groups"] is None) \
+            or bool(case.get("map_defect") and case["groups"])
+
+    def cli_map_lines(self, case):
+        """The (id, gid) lines of the --id2gid file in the order they are written."""
+        lines = list(case["groups"].items())
+        if case.get("unlisted"):
+            lines = lines[:-1]
+        lines += list((case.get("absent") or {}).items())
+        if case.get("map_style", 0) & 1:
+            lines = sorted(lines)
+        if case.get("map_defect") == "dup" and lines:
+            lines = lines + [(lines[0][0], lines[0][1] + "x")]
+        return lines
+
+    @staticmethod
+    def cli_groups(model):
+        return model["groups"] if isinstance(model, dict) else model
 
     def impl_cli(self, case):
         import torch
@@ -623,14 +954,15 @@ class C18(PropertyCheck):
                 args.append("--bessel")
             if case["groups"] is not None:
                 gp = os.path.join(td, "id2gid")
-                lines = list(case["groups"].items())
-                if case.get("unlisted"):
-                    lines = lines[:-1]
-                lines += list((case.get("absent") or {}).items())
+                lines = self.cli_map_lines(case)
                 style = case.get("map_style", 0)
                 with open(gp, "w") as fh:
-                    for i, (k, v) in enumerate(sorted(lines) if style & 1 else lines):
+                    for i, (k, v) in enumerate(lines):
                         fh.write(f"{k} {v}\n" if not style & 2 else f"  {k}\t  {v}  \n" + ("\n" if i == 0 else ""))
+                    if case.get("map_defect") == "three":
+                        fh.write("some id gid\n")
+                    elif case.get("map_defect") == "one":
+                        fh.write("lonely\n")
                 args += ["--id2gid", gp]
             with contextlib.redirect_stderr(io.StringIO()):
                 rc = command_line.compute_mvn_stats_for_torch_feat_data_dir(args)
@@ -653,7 +985,14 @@ class C18(PropertyCheck):
             gids = sorted(set(case["groups"].values()))
             groups = [{"gid": g, "files": [{"shape": f["shape"], "data": f["data"]} for f in files
                                            if case["groups"][f["id"]] == g]} for g in gids]
-        return {"op": "c18.cli", "case": {"dim": case["dim"], "bessel": case["bessel"], "groups": groups}}
+        req = {"dim": case["dim"], "bessel": case["bessel"], "groups": groups}
+        if case.get("map_defect") not in ("three", "one"):
+            # the command itself (group table, lookups, exit status) as modelled in Lean: files in the order
+            # of the directory dataset (sorted ids) + the parsed id map
+            req["files"] = [{"id": f["id"], "x": {"shape": f["shape"], "data": f["data"]}} for f in files]
+            if case["groups"] is not None:
+                req["map"] = [[k, v] for k, v in self.cli_map_lines(case)]
+        return {"op": "c18.cli", "case": req}
 
     # ---------------------------------------------------------------- deltas
     DELTA_DEFAULTS = {"dim": -1, "time_dim": -2, "concatenate": True, "order": 2, "width": 2,
@@ -766,7 +1105,9 @@ class C18(PropertyCheck):
     # ================================================================ correspondence
     def compare(self, case, impl, model):
         if isinstance(impl, dict) and "error" in impl:
-            if case["kind"] == "cli" and any(g["stats"] is None for g in model) and impl["error"] == "RuntimeError":
+            if case["kind"] == "cli" and impl["error"] == "RuntimeError" and not self.cli_expect_rc1(case) \
+                    and any(g["stats"] is None for g in self.cli_groups(model)) \
+                    and (not isinstance(model, dict) or model["command"] == "raised"):
                 return []           # store() raises for a group with too few frames: model agrees
             return [f"implementation raised {impl['error']}: {impl.get('message')}"]
         return getattr(self, "cmp_" + case["kind"])(case, impl, model)
@@ -801,6 +1142,15 @@ class C18(PropertyCheck):
             bad = first_bad(impl["own"]["y"], model["own"]["y"], rt, at)
             if bad:
                 out.append(f"forward with own statistics differs: {bad}")
+        for gi, gname in enumerate(("grid_given", "grid_stored")):
+            g = impl.get(gname)
+            gm = (model.get("grids") or [None, None])[gi]
+            if g is None or gm is None:
+                continue
+            for combo in COMBOS:
+                bad = first_bad(g[combo]["y"], gm["model"][combo], rt, at)
+                if bad:
+                    out.append(f"forward grid ({gname[5:]} statistics, supplied: {combo}) differs: {bad}")
         if (impl["store"] is None) != (model["store"] is None):
             out.append(f"store: impl {'raised' if impl['store'] is None else 'stored'}, "
                        f"model {'raises' if model['store'] is None else 'stores'}")
@@ -829,6 +1179,20 @@ class C18(PropertyCheck):
 
     def cmp_cli(self, case, impl, model):
         out = []
+        cmd = model.get("command") if isinstance(model, dict) else None
+        model = self.cli_groups(model)
+        if cmd is not None:
+            # the Lean model of the command: exit status 1 / RuntimeError / the dictionary written
+            if (cmd == "exit1") != (impl.get("rc") == 1):
+                out.append(f"command model says {cmd if isinstance(cmd, str) else 'writes'}, exit status {impl.get('rc')}")
+            elif cmd == "raised":
+                out.append("command model raises (a group with too few frames), the command returned")
+            elif isinstance(cmd, list):
+                if sorted(g["gid"] for g in cmd) != [g["gid"] for g in impl["groups"]]:
+                    out.append(f"command model writes groups {sorted(g['gid'] for g in cmd)}, the command "
+                               f"{[g['gid'] for g in impl['groups']]}")
+            if out:
+                return out
         if self.cli_expect_rc1(case):
             return [] if impl.get("rc") == 1 else [f"expected exit status 1, got {impl.get('rc')}"]
         want_err = any(g["stats"] is None for g in model)
@@ -891,7 +1255,8 @@ class C18(PropertyCheck):
     # ================================================================ the property on the implementation
     def predicate(self, case, impl, model):
         if isinstance(impl, dict) and "error" in impl:
-            if case["kind"] == "cli" and model is not None and any(g["stats"] is None for g in model) \
+            if case["kind"] == "cli" and model is not None and not self.cli_expect_rc1(case) \
+                    and any(g["stats"] is None for g in self.cli_groups(model)) \
                     and impl["error"] == "RuntimeError":
                 return []           # too few frames in a group: documented RuntimeError of store()
             if case["kind"] == "cli" and impl["error"] == "RuntimeError" and not case["bessel"] \
@@ -923,6 +1288,7 @@ class C18(PropertyCheck):
                 if bad:
                     fails.append((f"statistics stored in the middle of the history are not the pooled "
                                   f"statistics of the frames seen so far: {bad}", None))
+        fails += self.pred_grid(case, impl.get("grid_given"), (model.get("grids") or [None])[0], "supplied")
         need = 2 if case["bessel"] else 1
         if frames < need:
             if impl["store"] is not None:
@@ -955,6 +1321,9 @@ class C18(PropertyCheck):
                           f"{impl['restart']}", None))
         if not s["same_via_self"]:
             fails.append(("the module's own forward differs from a module built from its mean/std", None))
+        if not s.get("holder_restored", True):
+            fails.append(("assigning the mean / std buffers of a module did not give back the assigned tensors", None))
+        fails += self.pred_grid(case, impl.get("grid_stored"), (model.get("grids") or [None, None])[1], "stored")
         if not s["module_half_equal"]:
             fails.append(("module and functional differ (mean only / std only / both given)", None))
         rt, at = self.tol(case)
@@ -992,6 +1361,48 @@ class C18(PropertyCheck):
             fails.append(("forward changed dtype or shape", None))
         return fails
 
+    WHAT = {"none": "no statistic supplied: own mean, own deviation",
+            "mean": "mean supplied, std omitted: supplied mean, the input's OWN deviation",
+            "std": "std supplied, mean omitted: the input's OWN mean, supplied deviation",
+            "both": "mean and std supplied"}
+
+    def pred_grid(self, case, g, gm, origin):
+        """Every combination of supplied / omitted statistics must be (x - mean[i]) / max(std[i], eps) with
+        an omitted statistic replaced by the INPUT'S OWN one (Lean: mvnSpec on coeffEntries), whatever the
+        entry route; and, from the property text, a column normalised with its own deviation has variance
+        1, one centred with its own mean has mean 0."""
+        if g is None or gm is None:
+            return []
+        fails = []
+        rt, at = self.tol(case)
+        eps = F(case.get("eps") or 0)
+        for combo in COMBOS:
+            bad = first_bad(g[combo]["y"], gm["spec"][combo], rt, at)
+            if bad:
+                fails.append((f"forward ({origin} statistics; {self.WHAT[combo]}) is not "
+                              f"(x - mean[i]) / max(std[i], eps): {bad}", None))
+            if not g[combo]["shape_ok"]:
+                fails.append((f"forward ({origin} statistics, {combo}) changed dtype or shape", None))
+            st = g[combo]["stats"]
+            for i, v in enumerate(gm["own_var"]):
+                if i >= len(st["m1"]):
+                    break
+                m1, m2 = F(st["m1"][i]), F(st["m2"][i])
+                pt = 50 * at * (1 + float(m2))
+                if combo in ("none", "std") and not close(m1, 0, 0, pt):
+                    fails.append((f"forward ({origin} statistics, {combo}): coefficient {i} centred with the "
+                                  f"input's own mean has mean {float(m1):.3g}", None))
+                if combo in ("none", "mean") and F(v) > 0 and F(v) >= eps * eps \
+                        and not close(m2 - m1 * m1, 1, 0, pt):
+                    fails.append((f"forward ({origin} statistics, {combo}): coefficient {i} scaled with the "
+                                  f"input's own deviation has variance {float(m2 - m1 * m1):.6g}", None))
+        if g["routes_differ"]:
+            fails.append((f"forward ({origin} statistics): entry routes disagree with the functional: "
+                          f"{g['routes_differ']}", None))
+        if not g["input_kept"]:
+            fails.append((f"forward ({origin} statistics) modified the caller's tensor", None))
+        return fails
+
     def cli_has_single_frame_group(self, case):
         frames = {}
         for f in case["files"]:
@@ -1001,10 +1412,12 @@ class C18(PropertyCheck):
         return any(v == 1 for v in frames.values())
 
     def pred_cli(self, case, impl, model):
+        model = self.cli_groups(model)
         if self.cli_expect_rc1(case):
             if impl.get("rc") == 1 and not impl.get("wrote"):
                 return []
-            return [(f"no features / a file missing from the id map: expected exit status 1 and no output, got "
+            return [(f"no features / a file missing from the id map / a malformed id map: expected exit status 1 "
+                     f"and no output, got "
                      f"{impl.get('rc')}" + (" and an output file" if impl.get("wrote", True) else ""), None)]
         if impl.get("rc"):
             return [(f"command returned {impl['rc']}", None)]
@@ -1094,6 +1507,8 @@ class C18(PropertyCheck):
         k = case["kind"]
         if k == "mvn":
             return len(case["history"]) >= 2
+        if k == "mvnseq":
+            return sum(1 for op in case["ops"] if op[0] == "store") >= 1 and len(case["ops"]) >= 3
         if k == "cli":
             return len(case["files"]) >= 2
         if k == "deltas":
@@ -1111,13 +1526,37 @@ class C18(PropertyCheck):
                   f"mvn.bessel={case['bessel']}", f"mvn.dtype={case['dtype']}", f"mvn.eps={case.get('eps')}",
                   f"mvn.store_after={self.mid_of(case) is not None}",
                   f"mvn.mixed_rank={any(case.get('lift') or [])}"]
+            fwd = case.get("fwd")
+            if fwd:
+                t += [f"mvn.fwd.probe={'pool' if len(fwd['probe']) == len(case['tensors']) else 'sub-pool'}",
+                      f"mvn.fwd.stat_dtype={fwd['stat_dtype']}", f"mvn.fwd.stat_layout={fwd['stat_layout']}",
+                      f"mvn.fwd.preset={fwd['preset']}"] + [f"mvn.fwd.supplied={c}" for c in COMBOS]
+            else:
+                t.append("mvn.fwd=None")
             t += [f"mvn.layout={l}" for l in set(case.get("layouts") or ["contig"])]
             if isinstance(impl, dict) and impl.get("store", 1) is None:
                 t.append("mvn.store_raises")
+        elif k == "mvnseq":
+            st = [op for op in case["ops"] if op[0] == "store"]
+            t += [f"mvnseq.calls={min(len(case['ops']), 8)}", f"mvnseq.stores={min(len(st), 4)}",
+                  f"mvnseq.preset={case.get('preset')}"]
+            t += sorted(set(f"mvnseq.store(delete_stats={op[1]},bessel={op[2]})" for op in st))
+            if isinstance(impl, dict) and "steps" in impl:
+                rs = [a["raised"] is True for a in impl["steps"]]
+                t.append(f"mvnseq.store_raised={any(rs)}")
+                # a store that raised followed by more calls; an accumulate after a store of either kind
+                for j in range(1, len(rs)):
+                    prev, cur = case["ops"][j - 1], case["ops"][j]
+                    if cur[0] == "acc" and prev[0] == "store" and not rs[j - 1]:
+                        t.append(f"mvnseq.accumulate_after_store(delete_stats={prev[1]})")
+                    if rs[j - 1]:
+                        t.append("mvnseq.call_after_failed_store")
+                t = sorted(set(t), key=t.index)
         elif k == "cli":
             t += [f"cli.groups={case['groups'] is not None}", f"cli.bessel={case['bessel']}", f"cli.dim={case['dim']}",
                   f"cli.files={min(len(case['files']), 2)}{'+' if len(case['files']) > 2 else ''}",
                   f"cli.absent_ids={bool(case.get('absent'))}", f"cli.unlisted={bool(case.get('unlisted'))}",
+                  f"cli.map_defect={case.get('map_defect') if case['groups'] else None}",
                   f"cli.mixed_rank={len(set(len(f['shape']) for f in case['files'])) > 1}",
                   f"cli.default_names={case['prefix'] == '' and case['suffix'] == '.pt'}"]
         elif k == "deltas":
@@ -1138,12 +1577,49 @@ class C18(PropertyCheck):
                 t.append(f"return.empty={case['rows'] * case['cols'] == 0}")
         return t
 
+    def mvn_ok(self, case):
+        """A shrunk mvn case must stay inside the specified domain: eps = 0 only without a constant
+        coefficient in the pool; an omitted deviation of a probe with a constant coefficient needs an eps
+        above the default (else the quotient overflows / is 0/0 and the mismatch is float behaviour)."""
+        rank = len(case["tensors"][0]["shape"])
+        X = case["tensors"][0]["shape"][case["dim"] % rank]
+
+        def varied(tensors):
+            vals = coeff_values(tensors, case["dim"])
+            return len(vals) == X and all(len(set(v)) >= 2 for v in vals.values())
+        if case.get("eps") == "0" and not varied(case["tensors"]):
+            return False
+        fwd = case.get("fwd")
+        if fwd:
+            sel = [case["tensors"][i] for i in fwd["probe"]]
+            if len(coeff_values(sel, case["dim"])) < X:
+                return False
+            if case.get("eps") in (None, "0") and not varied(sel):
+                return False
+        return True
+
     def shrink(self, case):
+        for cand in self.shrink_raw(case):
+            if cand.get("kind") != "mvn" or self.mvn_ok(cand):
+                yield cand
+
+    def shrink_raw(self, case):
         k = case["kind"]
         if k == "mvn":
-            for opt in ("eps", "layouts", "lift", "store_after"):
+            for opt in ("layouts", "lift", "store_after"):
                 if case.get(opt) is not None:
                     yield dict(case, **{opt: None})
+            fwd = case.get("fwd")
+            if case.get("eps") is not None and not fwd:
+                yield dict(case, eps=None)      # (with a grid the eps is tied to the probe's constant coefficients)
+            if fwd:
+                yield dict(case, fwd=None)
+                if fwd.get("stat_dtype") != "float64" or fwd.get("stat_layout") != "contig" \
+                        or fwd.get("preset") != "none":
+                    yield dict(case, fwd=dict(fwd, stat_dtype="float64", stat_layout="contig", preset="none"))
+                if len(fwd["probe"]) > 1:
+                    for j in range(len(fwd["probe"])):
+                        yield dict(case, fwd=dict(fwd, probe=fwd["probe"][:j] + fwd["probe"][j + 1:]))
             n = len(case["tensors"])
             for drop in range(n):
                 if n <= 1:
@@ -1151,9 +1627,28 @@ class C18(PropertyCheck):
                 ren = {i: (i if i < drop else i - 1) for i in range(n) if i != drop}
                 hist = [[ren[i] for i in ch if i != drop] for ch in case["history"]]
                 hist = [ch for ch in hist if ch]
-                yield dict(case, tensors=[t for i, t in enumerate(case["tensors"]) if i != drop], history=hist)
+                f2 = fwd
+                if fwd:
+                    pr = [ren[i] for i in fwd["probe"] if i != drop]
+                    f2 = dict(fwd, probe=pr) if pr else None
+                yield dict(case, tensors=[t for i, t in enumerate(case["tensors"]) if i != drop], history=hist,
+                           fwd=f2)
             if any(len(ch) > 1 for ch in case["history"]):
                 yield dict(case, history=[[i] for ch in case["history"] for i in ch])
+            for i, t in enumerate(case["tensors"]):
+                if any(v not in (0, 1) for v in t["data"]):
+                    ts = list(case["tensors"])
+                    ts[i] = dict(t, data=[max(0, min(1, v)) for v in t["data"]])
+                    yield dict(case, tensors=ts)
+        elif k == "mvnseq":
+            ops = case["ops"]
+            for j in range(len(ops) - 1, -1, -1):
+                if len(ops) > 1:
+                    yield dict(case, ops=ops[:j] + ops[j + 1:], layouts=None)
+            if case.get("preset") not in (None, "none"):
+                yield dict(case, preset="none")
+            if case.get("layouts"):
+                yield dict(case, layouts=None)
             for i, t in enumerate(case["tensors"]):
                 if any(v not in (0, 1) for v in t["data"]):
                     ts = list(case["tensors"])
